@@ -5,3 +5,4 @@ pub mod mutate;
 pub mod tok;
 pub mod rewrite;
 pub mod base;
+pub mod twin;
